@@ -269,6 +269,28 @@ func (e *keeperEnv) replay(k *kind, what string, claims []claim, order []int) {
 		}
 		out.Emit(line, fmt.Sprintf("%s last=%d exec=%s pend=%s atts=%s", kindR, lastObs, execHash, e.pendOf(ctx, nonce), e.attTable(ctx, nonce)))
 	}
+	// (5) tallied together only if they agree: in the final table of the nonce, the voters of every attestation (observed
+	// or not) submitted claims with one and the same effect
+	e.k.IterateAttestationAndClaim(ctx, func(att *ct.Attestation, rec ct.ExternalClaim) bool {
+		if rec.GetEventNonce() != nonce {
+			return false
+		}
+		var firstV claim
+		for _, v := range att.Votes {
+			vi, ok := e.index[v]
+			if !ok || votes[vi] == nil {
+				continue
+			}
+			if firstV == nil {
+				firstV = votes[vi]
+			} else if k.effect(votes[vi]) != k.effect(firstV) {
+				rp := append(append([]string{}, replay...), fmt.Sprintf("# attestation %x holds the votes of oracles %v, who voted for different events", rec.ClaimHash(), att.Votes))
+				r.violate(fmt.Sprintf("real keeper: votes for different events are tallied in one attestation in %s: %s", k.name, what), rp)
+				return true
+			}
+		}
+		return false
+	})
 	// deferred execution: ExecuteClaim runs the stored copy (whether the real handler succeeds is an input of the model)
 	ran := 0
 	for round := 0; round < 2; round++ {
